@@ -539,7 +539,7 @@ func genJob(r *RNG, paths []PathSpec, small bool, salt ...string) *Recipe {
 	if r.Chance(0.2) && !small {
 		cfg.KeyQualMode = 2 // order-dependence inside one job is fine here: its solo run takes the same decisions
 	}
-	g := &Gen{r: r, cfg: cfg}
+	g := &Gen{r: r, cfg: cfg, lits: true}
 	if len(salt) > 0 {
 		g.hostSalt = salt[0]
 	}
@@ -569,6 +569,14 @@ func genJob(r *RNG, paths []PathSpec, small bool, salt ...string) *Recipe {
 		for i := r.Intn(2); i > 0; i-- {
 			rec.Frags = append(rec.Frags, g.fragment())
 		}
+	}
+	if r.Chance(0.3) {
+		// blank lines between declarations; sometimes with something chained onto one of them
+		rec.Ops = append(rec.Ops, Op{K: "line"})
+		if r.Chance(0.4) {
+			rec.Ops = append(rec.Ops, Op{K: "line_comment", S: fmt.Sprintf("note %d", r.Intn(1000))})
+		}
+		rec.Ops = append(rec.Ops, Op{K: "add", Node: g.decl()})
 	}
 	rec.Ops = append(rec.Ops, Op{K: "render"})
 	if r.Chance(0.25) {
@@ -607,7 +615,7 @@ func (propC09) Gen(seed uint64, tier string) *Case {
 		cfg.NPaths = r.Range(2, 5)
 		cfg.CaseOdd = 0.4
 		cfg.PSwitch = 0.4
-		g := &Gen{r: r, cfg: cfg}
+		g := &Gen{r: r, cfg: cfg, lits: true}
 		g.universe()
 		var frags []*Node
 		for i := r.Range(1, 3); i > 0; i-- {
